@@ -2,10 +2,10 @@ package rules
 
 import (
 	"fmt"
-	"os"
 	"go/constant"
 	"go/token"
 	"go/types"
+	"os"
 
 	"golang.org/x/tools/go/ssa"
 
@@ -310,6 +310,10 @@ func c02Loop(l *core.Ledger, r *rt, rl *replyLoop) {
 				ctxAliveEdges = append(ctxAliveEdges, errEdge(ifi, mErr, false))
 			}
 		})
+		// the same test written as a non-blocking select on ctx.Done()
+		pe, pa := ctxPollEdges(rl.fn, func(v ssa.Value) bool { return v == rl.ctxVal || sameCtx(v, rl.ctxVal) })
+		ctxEndedEdges = append(ctxEndedEdges, pe...)
+		ctxAliveEdges = append(ctxAliveEdges, pa...)
 	}
 	for i, c := range comps {
 		k := fmt.Sprintf("%s/completion%d", key, i)
@@ -345,35 +349,46 @@ func c02Loop(l *core.Ledger, r *rt, rl *replyLoop) {
 			l.Bad("C02-T1", k, pos, "completion with an error that is not a QuorumCallError literal: "+sx.OriginsString(sx.Origins(c.err))+" (no other outcome than success / Incomplete / context error is allowed)")
 			continue
 		}
-		cause := sx.Origins(fields["cause"])
-		switch {
-		case fields["cause"] != nil && sx.All(cause, sx.IsGlobalNamed("Incomplete")):
-			nEx++
-			l.Check(c.under(rl.fn, exEdges), "C02-T1", k, pos, "Incomplete only under the exhaustion test", "Incomplete is reported on a path where the exhaustion test did not hold (some targeted node may still answer)")
-			if rl.hasCtx {
-				// requests of an ended context are answered locally, one error per node (enqueue, sendMsg):
-				// those answers exhaust the call, and the select may see them before ctx.Done()
-				l.Check(c.under(rl.fn, ctxAliveEdges), "C02-T1", k+"/ctx-alive", pos, "Incomplete only where the context was seen not to have ended", "Incomplete is reported without looking at the call's context: when the context ends before or while the requests are queued every node is answered locally with the context's error, the loop counts them and reports 'incomplete call' although the context ended first - and errors.Is(err, ctx.Err()) is false")
+		// the cause may be chosen before the literal is built (cause := Incomplete; if err := ctx.Err();
+		// err != nil { cause = err }): one outcome per incoming edge of that choice
+		classify := func(c completion, causeVal ssa.Value, k string, i int) {
+			cause := sx.Origins(causeVal)
+			switch {
+			case causeVal != nil && sx.All(cause, sx.IsGlobalNamed("Incomplete")):
+				nEx++
+				l.Check(c.under(rl.fn, exEdges), "C02-T1", k, pos, "Incomplete only under the exhaustion test", "Incomplete is reported on a path where the exhaustion test did not hold (some targeted node may still answer)")
+				if rl.hasCtx {
+					// requests of an ended context are answered locally, one error per node (enqueue, sendMsg):
+					// those answers exhaust the call, and the select may see them before ctx.Done()
+					l.Check(c.under(rl.fn, ctxAliveEdges), "C02-T1", k+"/ctx-alive", pos, "Incomplete only where the context was seen not to have ended", "Incomplete is reported without looking at the call's context: when the context ends before or while the requests are queued every node is answered locally with the context's error, the loop counts them and reports 'incomplete call' although the context ended first - and errors.Is(err, ctx.Err()) is false")
+				}
+			case causeVal != nil && rl.hasCtx && sx.All(cause, func(o sx.Origin) bool {
+				cc, ok := o.V.(*ssa.Call)
+				return o.Kind == sx.KCall && ok && cc.Call.IsInvoke() && cc.Call.Method.Name() == "Err" && cc.Call.Value == rl.ctxVal
+			}):
+				nCtx++
+				l.Check(c.under(rl.fn, ctxEndedEdges), "C02-T1", k, pos, "context error only where the context was observed to have ended (ctx.Done() case, or a ctx.Err() tested non-nil)", "the context's error is reported outside the case that observed ctx.Done()")
+				if fields["errors"] == nil && fields["replies"] == nil {
+					// the property fixes the numbers only for Incomplete; a context report without them is complete
+					return
+				}
+			default:
+				l.Bad("C02-T1", k, pos, "QuorumCallError with cause "+sx.OriginsString(cause)+": neither Incomplete nor the Err() of the context selected on")
+				return
 			}
-		case fields["cause"] != nil && rl.hasCtx && sx.All(cause, func(o sx.Origin) bool {
-			cc, ok := o.V.(*ssa.Call)
-			return o.Kind == sx.KCall && ok && cc.Call.IsInvoke() && cc.Call.Method.Name() == "Err" && cc.Call.Value == rl.ctxVal
-		}):
-			nCtx++
-			l.Check(c.under(rl.fn, ctxEndedEdges), "C02-T1", k, pos, "context error only where the context was observed to have ended (ctx.Done() case, or a ctx.Err() tested non-nil)", "the context's error is reported outside the case that observed ctx.Done()")
-			if fields["errors"] == nil && fields["replies"] == nil {
-				// the property fixes the numbers only for Incomplete; a context report without them is complete
-				continue
-			}
-		default:
-			l.Bad("C02-T1", k, pos, "QuorumCallError with cause "+sx.OriginsString(cause)+": neither Incomplete nor the Err() of the context selected on")
-			continue
+			// T2 accounting
+			k2 := fmt.Sprintf("%s/accounting%d", key, i)
+			okErrs := fields["errors"] != nil && rl.errsFamily(fields["errors"], map[ssa.Value]bool{})
+			okReps := fields["replies"] != nil && lenOf(fields["replies"], func(a ssa.Value) bool { return a == rl.replies })
+			l.Check(okErrs && okReps, "C02-T2", k2, pos, "errors = the loop's error slice, replies = len(reply map)", fmt.Sprintf("reported numbers do not add up: errors from the error slice: %v, replies = len(reply map): %v", okErrs, okReps))
 		}
-		// T2 accounting
-		k2 := fmt.Sprintf("%s/accounting%d", key, i)
-		okErrs := fields["errors"] != nil && rl.errsFamily(fields["errors"], map[ssa.Value]bool{})
-		okReps := fields["replies"] != nil && lenOf(fields["replies"], func(a ssa.Value) bool { return a == rl.replies })
-		l.Check(okErrs && okReps, "C02-T2", k2, pos, "errors = the loop's error slice, replies = len(reply map)", fmt.Sprintf("reported numbers do not add up: errors from the error slice: %v, replies = len(reply map): %v", okErrs, okReps))
+		if ph, isPhi := fields["cause"].(*ssa.Phi); isPhi && mergeBlockOf(ph, c) {
+			for j, pred := range ph.Block().Preds {
+				classify(completion{at: c.at, err: c.err, reply: c.reply, via: pred, to: ph.Block()}, ph.Edges[j], fmt.Sprintf("%s.%d", k, j), i)
+			}
+		} else {
+			classify(c, fields["cause"], k, i)
+		}
 	}
 	ctxCaseCompletes(l, rl, "C02-T1")
 	if nEx == 0 {
@@ -574,6 +589,7 @@ func c02T4(l *core.Ledger, r *rt) {
 			continue
 		}
 		skips, _ := skipEdges(ep)
+		valids, perNodeBlocks := validEdges(ep)
 		var exp, sent *ssa.Phi
 		for _, ph := range counterPhis(li) {
 			entry := phiEntryEdge(li, ph)
@@ -627,6 +643,20 @@ func c02T4(l *core.Ledger, r *rt) {
 					bad = true
 					l.Bad("C02-T4", fmt.Sprintf("%s/path%d", key, pi), ep.fn.Pos(), fmt.Sprintf("sent-message counter changes by %+d on a path with %d enqueue(s)", d, enq))
 					continue
+				}
+			}
+			if enq == 1 {
+				// a per-node result is sent only after it was seen to be a valid message (a typed nil
+				// from the generated wrapper is not the untyped nil)
+				usesPerNode := false
+				for _, b := range path {
+					if perNodeBlocks[b] {
+						usesPerNode = true
+					}
+				}
+				if usesPerNode && !pathUsesEdge(path, li.head, valids) {
+					bad = true
+					l.Bad("C02-T4", fmt.Sprintf("%s/path%d", key, pi), ep.fn.Pos(), "a node is skipped on a path other than the '!msg.ProtoReflect().IsValid()' edge of the per-node function's result: the result of the per-node function is sent without having been seen valid (a typed nil is sent as an empty request)")
 				}
 			}
 			if enq == 0 && !pathUsesEdge(path, li.head, skips) {
